@@ -30,7 +30,8 @@ ASSUMPTIONS = [
     "DIMSE-N Attribute List / Action Reply / Event Reply for status 0x0000 (and 0x0107/0x0116 where PS3.7 10.1 lists them)",
     "Relevant Patient Information Query is a single-match service (PS3.4 Annex Q): one Pending then Success",
     "handlers that are not generators (C-FIND) and results outside the documented contract (non-tuples, Pending without "
-    "an Identifier dataset, out-of-range ints) have no documented mapping: the model stops there and asserts nothing more",
+    "an Identifier dataset) have no documented mapping: the model stops there and asserts nothing more; an int outside 0..0xFFFF cannot be sent as "
+    "the status, so 'a Failure-class status' is required for it (C-ECHO excepted); a response that is not sent at all is C20's clause, not C21's",
     "C-GET / C-MOVE mappings (sub-operation counters) belong to C22",
     "datasets are compared element by element after decoding under the negotiated transfer syntax with pydicom",
 ]
